@@ -48,11 +48,29 @@ RULE = ("conv: Hypothesis-drawn shapes (axes independent, 1..12 quick / 1..40 th
         "the *current* data (buckets ...:after-data-reassigned / -edited-in-place / -dx-changed); the array forms get the same treatment with the "
         "same array object.  (After a caught exception) conv with non-broadcastable shapes / 1-D / None, apply_transfer_functions with a callable "
         "but no dx, a transfer function of another shape, a callable that raises, the OTF routines without dx and on a container whose dx is "
-        "None (then assigned) are issued inside try/except before the checked calls; nothing is asserted about them.")
+        "None (then assigned) are issued inside try/except before the checked calls; nothing is asserted about them.  "
+        "Round-8 hardening, clause transfer_functions: (entries of every accepted kind, in every position) constants as Python float / int / "
+        "complex / bool, numpy float64 / float32 / int64 / complex scalars, 0-d arrays (values 0, 1, 0.5, 2, -1.25, 1e-17, 1e12, 3-2i, i, ...), callables that "
+        "return such a constant whatever grids they declare, arrays that only broadcast against the spectrum ((1, N) row, (M, 1) column, 1-D of length N, "
+        "(1, 1); real / complex; every layout), mixed with full arrays and callables in lists of 1-4, shift True and False; the oracle multiplies the "
+        "broadcast values in the Fourier domain itself; additionally [c] alone == c * object under both conventions, the list reversed / rotated == the "
+        "list, list == product.  (Callables that are sensitive to the exact values of the grids they are handed) DC block / DC gain fr == 0, the "
+        "boolean mask fr != 0, sign(fr), 1 / (1 + 1e16 fr), a guarded 1/f roll-off, hard-edged low-pass fr <= edge and band-pass 0 < fr <= edge with the "
+        "edge exactly at an on-axis value of the grid (only where 1 / (n dx) is exactly representable or the grids are the caller's) or a relative 1e-9 "
+        "above it, ft == 0, |ft| <= pi/2, fx == 0, fy == 0, (fx == 0) & (fy == 0), -i sign(fx); the oracle evaluates the same formula on the harness' "
+        "own grids (numpy.fft.fftfreq(n, dx), fftshift-ed for shift=True, hypot / arctan2) and multiplies in the Fourier domain itself.  Also drawn: "
+        "shift= as True / numpy.True_ / 1 (and the falsy ones), dx as float / int / numpy scalar / 0-d array, every argument by keyword, numpy.fft "
+        "behind the backend shim (all clauses), a prior call with constants and a grid-sensitive callable under the other convention, an array of the "
+        "list and the object edited in place before a further call (...:after-arguments-edited-in-place), and (clause transfer_functions_large) "
+        "objects of more than 2**16 samples with large prime axis lengths (1x65537, 2x32771, 257x257, 65539x1, ...).")
 ASSUMPTIONS = ["numpy.fft (pocketfft) and numpy.roll are correct", "objects, PSFs and transfer-function arrays have the same 2-D shape",
                "user-supplied frequency grids are given for both fx and fy, in the convention selected by `shift`",
                "sum(psf) > 0 for the MTF clauses (entries >= 0, at least one >= 0.05 of the peak before scaling)",
                "integer and boolean arrays are valid real objects / PSFs / transfer functions (the unchanged code promotes them to float64)",
+               "a constant (Python / numpy scalar, 0-d array) or an array that broadcasts against the (M, N) spectrum is a valid transfer function and means its "
+               "broadcast value (observed on the unchanged code, which multiplies the spectrum by each entry)",
+               "the radial / azimuthal grids handed to callables are hypot(fx, fy) / arctan2(fy, fx) of the fftfreq grids: exactly 0 at the zero-frequency sample, "
+               "exact on the axes; comparisons at other samples are only made with a relative margin of 1e-9",
                "scaling a sound input by a power of ten inside the floating-point range keeps it sound (observed on the unchanged code: "
                "conv and the OTF routines are accurate to round-off for amplitudes 1e-300 .. 1e300)"]
 
@@ -166,7 +184,7 @@ def strat_conv(tier):
         'hkind': st.sampled_from(['random', 'random', 'embedded', 'impulse']),
         'odtype': st.sampled_from(DTYPES), 'hdtype': st.sampled_from(DTYPES), 'scale': st.sampled_from(SCALE_PAIRS),
         'olayout': U.layouts, 'hlayout': U.layouts, 'w': st.sampled_from(IMPULSE_W), 'pre': st.sampled_from(PRE),
-        'kwargs': st.booleans()}))
+        'kwargs': st.booleans(), 'backend': U.fft_backends}))
 
 
 def _prior_conv(ctx, conv, pre, shape, seed):
@@ -193,6 +211,12 @@ def _prior_conv(ctx, conv, pre, shape, seed):
 def check_conv(case, ctx):
     """conv == explicit circular convolution about n//2; bilinear, commutative, impulse identity / translation, energy product;
     for every dtype / layout / scale; arguments untouched; results independent of later calls."""
+    with U.fft_backend(case.get('backend', 'scipy')):
+        ctx.label('fft:' + case.get('backend', 'scipy'))
+        _check_conv(case, ctx)
+
+
+def _check_conv(case, ctx):
     from prysm.convolution import conv
     shape, seed, a, b, k = tuple(case['shape']), case['seed'], case['a'], case['b'], case['k']
     odt = np.dtype(case.get('odtype', case.get('dtype', 'float64')))
@@ -395,7 +419,146 @@ def _tf_spec():
     )
 
 
-CALLABLE_KINDS = {'stored', 'ones_callable', 'gauss_fr', 'sinc_fxfy', 'smear', 'jitter', 'ft_cos', 'ramp', 'fx_only', 'fy_only', 'all4', 'mix'}
+# ---- round-8 hardening: entries of tfs of every accepted kind ------------------------------------------------------------------
+# (a) constants: a Python number, a numpy scalar, a 0-d array (real / complex / integer / bool) - a transmission, a QE, a normalisation;
+# (b) callables that return such a constant whatever grids they declare; (c) arrays that only broadcast against the spectrum
+# ((1, N) row, (M, 1) column, 1-D of length N, (1, 1)); (d) callables whose value depends on the *exact* values of the frequency grids
+# they are handed (zero frequency treated specially, sign, hard edges at grid values).  [re, im] pairs:
+SCALAR_VALUES = [[0.5, 0.0], [2.0, 0.0], [-1.25, 0.0], [0.75, 0.0], [1.0, 0.0], [0.0, 0.0], [0.001, 0.0], [3.0, -2.0], [0.0, 1.0], [0.6, 0.8],
+                 [1e-17, 0.0], [1e12, 0.0], [-1.0, 0.0], [0.8, 0.0], [0.5, 0.0], [0.8, 0.0]]
+SCALAR_AS = ['py', 'py', 'py-int', 'np', 'np32', 'np-int', '0d', '0d', '0d-32', 'bool', 'np']
+BCAST_FORMS = ['row', 'col', '1d', '1x1', 'row', 'col']
+SHARP_NEEDS = {'fr_eq0': ['fr'], 'fr_ne0_bool': ['fr'], 'fr_sign': ['fr'], 'fr_inv16': ['fr'], 'fr_guarded_inv': ['fr'], 'fr_step': ['fr'],
+               'fr_band': ['fr'], 'ft_eq0': ['ft'], 'ft_step': ['ft'], 'fx_eq0': ['fx', 'fy'], 'fy_eq0': ['fx', 'fy'], 'hilbert_x': ['fx', 'fy'],
+               'xy_origin': ['fx', 'fy'], 'fr_ft_origin': ['fr', 'ft']}
+SHARP_FNS = sorted(SHARP_NEEDS)
+SHARP_A = [0.0, 0.0, 2.0, -1.0, 0.5]
+HALF_PI_UP = (math.pi / 2) * (1 + 1e-9)
+
+
+def _scalar_obj(value, how):
+    """the constant re + i im as the drawn Python / numpy type (what is handed to the library)"""
+    re_, im_ = float(value[0]), float(value[1])
+    if im_ != 0.0:
+        z = complex(re_, im_)
+        if how in ('np', 'np-int'):
+            return np.complex128(z)
+        if how == 'np32':
+            return np.complex64(z)
+        if how == '0d':
+            return np.array(z)
+        if how == '0d-32':
+            return np.array(z, dtype=np.complex64)
+        return z
+    integral = re_.is_integer() and abs(re_) < 2 ** 31
+    if how == 'py-int' and integral:
+        return int(re_)
+    if how == 'np-int':
+        return np.int64(re_) if integral else np.float64(re_)
+    if how == 'bool' and re_ in (0.0, 1.0):
+        return bool(re_)
+    if how == 'np':
+        return np.float64(re_)
+    if how == 'np32':
+        return np.float32(re_)
+    if how == '0d':
+        return np.array(re_)
+    if how == '0d-32':
+        return np.array(re_, dtype=np.float32)
+    return re_
+
+
+def _scalar_value(obj):
+    """the number the library was handed, in the harness' working precision"""
+    z = complex(np.asarray(obj).astype(np.complex128))
+    return z if z.imag != 0.0 else z.real
+
+
+def _tame(value, odt, eo):
+    """very large / very small constants only with objects of order one in float64 (keeps every product representable)"""
+    m = abs(complex(value[0], value[1]))
+    if (m > 1e3 or 0 < m < 1e-3) and (np.dtype(odt) == np.float32 or abs(eo) > 100):
+        return [0.5, 0.0]
+    return value
+
+
+def _new_specs():
+    declares = st.permutations(FNAMES).flatmap(lambda p: st.integers(1, 3).map(lambda k: list(p[:k])))
+    return [
+        st.fixed_dictionaries({'kind': st.just('scalar'), 'value': st.sampled_from(SCALAR_VALUES), 'as': st.sampled_from(SCALAR_AS)}),
+        st.fixed_dictionaries({'kind': st.just('scalar'), 'value': st.sampled_from(SCALAR_VALUES), 'as': st.sampled_from(SCALAR_AS)}),
+        st.fixed_dictionaries({'kind': st.just('const_callable'), 'value': st.sampled_from(SCALAR_VALUES), 'as': st.sampled_from(SCALAR_AS),
+                               'declares': declares, 'style': st.sampled_from(SIG_STYLES), 'gain': st.sampled_from(GAINS)}),
+        st.fixed_dictionaries({'kind': st.just('bcast'), 'form': st.sampled_from(BCAST_FORMS), 'salt': st.integers(0, 50), 'cplx': st.booleans(),
+                               'layout': U.layouts}),
+        st.fixed_dictionaries({'kind': st.just('sharp'), 'fn': st.sampled_from(SHARP_FNS), 'a': st.sampled_from(SHARP_A), 'cut': st.integers(0, 40),
+                               'order': st.integers(0, 23), 'style': st.sampled_from(SIG_STYLES), 'gain': st.sampled_from(GAINS)}),
+        st.fixed_dictionaries({'kind': st.just('sharp'), 'fn': st.sampled_from(SHARP_FNS), 'a': st.sampled_from(SHARP_A), 'cut': st.integers(0, 40),
+                               'order': st.integers(0, 23), 'style': st.just('plain'), 'gain': st.just(1.0)}),
+    ]
+
+
+def _sharp_value(spec, fx, fy, fr, ft):
+    """transfer functions that are sensitive to the exact values of the grids they are given (harness' own formulas, evaluated by name)"""
+    fn, a = spec['fn'], spec.get('a', 0.0)
+    c = spec.get('cutoff', 1.0)
+    if fn == 'fr_eq0':            # a DC block / DC gain: the zero-frequency sample treated on its own
+        return np.where(fr == 0, a, 1.0)
+    if fn == 'fr_ne0_bool':       # the same as a boolean mask
+        return fr != 0
+    if fn == 'fr_sign':
+        return 0.25 + np.sign(fr)
+    if fn == 'fr_inv16':          # passes zero frequency only (the mean of the object)
+        return 1 / (1 + fr * 1e16)
+    if fn == 'fr_guarded_inv':    # a 1/f roll-off written correctly: the origin is given its own value
+        return np.where(fr == 0, a, c / np.where(fr == 0, 1.0, fr))
+    if fn == 'fr_step':           # hard-edged low-pass, edge at (or a relative 1e-9 above) a value of the grid
+        return (fr <= c) * 1.0
+    if fn == 'fr_band':           # band-pass whose lower edge is zero, exclusive (boolean)
+        return (fr > 0) & (fr <= c)
+    if fn == 'ft_eq0':            # azimuth exactly 0: the origin and the +x half axis
+        return np.where(ft == 0, 1.0, a)
+    if fn == 'ft_step':           # the half plane fx >= 0 incl. both halves of the fy axis and the origin
+        return np.where(np.abs(ft) <= HALF_PI_UP, 1.0, a)
+    if fn == 'fx_eq0':
+        return np.where(fx == 0, a, 1.0) + 0 * fy
+    if fn == 'fy_eq0':
+        return np.where(fy == 0, a, 1.0) + 0 * fx
+    if fn == 'hilbert_x':
+        return -1j * np.sign(fx) + 0 * fy
+    if fn == 'xy_origin':
+        return np.where((fx == 0) & (fy == 0), a, 1.0)
+    if fn == 'fr_ft_origin':
+        return np.where(fr == 0, a, 1 + 0.5 * np.cos(ft))
+    raise ValueError(fn)
+
+
+def _pow2(x):
+    return x > 0 and math.frexp(x)[0] == 0.5
+
+
+def _cutoff(fx1, fy1, FX, FY, FR, k, exact_ok):
+    """the edge of the hard-edged transfer functions: the k-th distinct on-axis value of the grid.  The comparison is made exactly at that
+    value only where every implementation of the grid gives the same bits there (1 / (n dx) exactly representable or caller-supplied
+    grids; the samples that reach the edge all lie on an axis, where hypot is exact); otherwise the edge lies a relative 1e-9 .. 7e-9
+    above the grid value, so that no sample is within rounding of it"""
+    cands = sorted(c for c in (set(np.abs(fx1).tolist()) | set(np.abs(fy1).tolist())) if c > 0)
+    if not cands:
+        return 1.0, 'no-grid-value'
+    c = cands[k % len(cands)]
+    on_axis = (FX == 0) | (FY == 0)
+    eq = FR == c
+    near = np.abs(FR - c) <= 1e-9 * c
+    if exact_ok and bool(np.all(eq == near)) and bool(np.all(on_axis[eq])):
+        return c, 'exactly-at-grid-value'
+    for m in (1e-9, 3e-9, 7e-9):
+        if not np.any(np.abs(FR - c * (1 + m)) <= 1e-11 * c):
+            return c * (1 + m), 'just-above-grid-value'
+    return c * 1.5, 'between-grid-values'
+
+
+CALLABLE_KINDS = {'stored', 'ones_callable', 'gauss_fr', 'sinc_fxfy', 'smear', 'jitter', 'ft_cos', 'ramp', 'fx_only', 'fy_only', 'all4', 'mix',
+                  'const_callable', 'sharp'}
 # the grids each harness-made callable declares, in the library's canonical order (the drawn 'order' permutes them)
 NEEDS = {'ones_callable': ['fr'], 'gauss_fr': ['fr'], 'sinc_fxfy': ['fx', 'fy'], 'ramp': ['fx', 'fy'], 'ft_cos': ['ft'], 'fx_only': ['fx'],
          'fy_only': ['fy'], 'all4': ['fx', 'fy', 'fr', 'ft']}
@@ -418,6 +581,10 @@ def _tf_value(spec, fx, fy, fr, ft):
     g = _gain_of(spec)
     if g != 1.0:
         return g * _tf_value(dict(spec, style='plain'), fx, fy, fr, ft)
+    if k == 'sharp':
+        return _sharp_value(spec, fx, fy, fr, ft)
+    if k == 'const_callable':
+        return _scalar_value(_scalar_obj(spec['value'], spec['as']))
     if k == 'mix':
         s_ = spec['s']
         factor = {'fx': lambda: 1 / (1 + (s_ * fx) ** 2), 'fy': lambda: np.cos(0.7 * s_ * fy) + 1.5,
@@ -451,9 +618,9 @@ _PERMS = {}
 
 def _declared(spec):
     """parameter names of the callable in the order it declares them"""
-    if spec['kind'] == 'mix':
+    if spec['kind'] in ('mix', 'const_callable'):
         return list(spec['declares'])
-    names = NEEDS[spec['kind']]
+    names = SHARP_NEEDS[spec['fn']] if spec['kind'] == 'sharp' else NEEDS[spec['kind']]
     if len(names) not in _PERMS:
         import itertools
         _PERMS[len(names)] = list(itertools.permutations(range(len(names))))
@@ -504,31 +671,41 @@ def _tf_callable(spec):
         return functools.partial(degredations.jitter_ft, scale=spec['s'])
     plain = dict(spec, style='plain')
 
+    const = _scalar_obj(spec['value'], spec['as']) if k == 'const_callable' else None
+
     def core(fx=0.0, fy=0.0, fr=None, ft=None):
         if k == 'ones_callable':
             return np.ones(np.shape(fr))
+        if k == 'const_callable':
+            return const      # the constant itself, in the drawn Python / numpy type
         return _tf_value(plain, fx, fy, fr, ft)
     return _build_callable(_declared(spec), spec.get('style', 'plain'), spec.get('gain', 1.0), core)
 
 
 TF_DX = [1.0, 0.5, 0.1, 2.5, 1.0, 0.5, 1e-4, 3e3]
+# more than 2**16 samples / sizes with a large prime factor, thin so that the FFT oracle stays cheap
+BIG_TF = [[1, 65537], [2, 32771], [257, 257], [3, 21851], [65539, 1], [5, 13109]]
 TF_OSCALE = [0, 0, 0, 0, 0, -300, -200, 200, 300, -17]
 ARRAY_KINDS = {'array_real': 'float64', 'array_complex': 'complex128', 'array_f32': 'float32', 'array_c64': 'complex64', 'array_int': 'int64',
                'array_mask': 'bool', 'array_u8': 'uint8'}
 
 
-def strat_tf(tier):
+def strat_tf(tier, big=False):
     arr_extra = st.one_of(*[st.fixed_dictionaries({'kind': st.just(k), 'salt': st.integers(0, 50), 'layout': U.layouts}) for k in sorted(ARRAY_KINDS)])
-    spec = st.one_of(_tf_spec(), _tf_spec(), arr_extra)
+    old_spec, new_spec = st.one_of(_tf_spec(), _tf_spec(), arr_extra), st.one_of(*_new_specs())
+    # (an explicit selector: a flat one_of over ~60 alternatives reaches the round-8 kinds in 1% of the entries only)
+    spec = st.integers(0, 9).flatmap(lambda k: new_spec if k < 4 else old_spec)
     return st.fixed_dictionaries({
-        'shape': _shape(tier), 'seed': U.seeds, 'shift': st.booleans(),
+        'shape': st.sampled_from(BIG_TF) if big else _shape(tier), 'seed': U.seeds, 'shift': st.booleans(),
+        'shift_as': st.sampled_from(['bool', 'bool', 'np', 'int']), 'dx_as': st.sampled_from(['py', 'py', 'np', '0d', 'int']),
+        'call': st.sampled_from(['positional', 'positional', 'keyword']), 'backend': U.fft_backends,
         'tfs': st.one_of(st.lists(spec, min_size=1, max_size=4), st.lists(spec, min_size=1, max_size=4),
                          st.tuples(spec, st.integers(2, 3)).map(lambda t: [t[0]] * t[1]),                        # the same entry repeated
                          st.tuples(spec, spec).map(lambda t: [t[0], t[1], t[0]])),
         'grids': st.sampled_from(['library', 'library', 'user1d', 'user2d']), 'dx': st.sampled_from(TF_DX),
         'okind': st.sampled_from(['random', 'random', 'embedded', 'impulse']),
         'odtype': st.sampled_from(DTYPES), 'olayout': U.layouts, 'oscale': st.sampled_from(TF_OSCALE), 'glayout': U.layouts,
-        'container': st.sampled_from(['list', 'list', 'tuple', 'ndarray']), 'share': st.booleans(), 'pre': st.sampled_from(['none', 'none', 'other-shift', 'other-dx', 'other-shape', 'float32', 'failed-call'])})
+        'container': st.sampled_from(['list', 'list', 'tuple', 'ndarray']), 'share': st.booleans(), 'pre': st.sampled_from(['none', 'none', 'other-shift', 'other-dx', 'other-shape', 'float32', 'failed-call', 'constants-other-shift'])})
 
 
 def _tf_array(spec, seed, shape):
@@ -536,6 +713,13 @@ def _tf_array(spec, seed, shape):
     k = spec['kind']
     if k == 'ones':
         return np.ones(shape)
+    if k == 'bcast':
+        # an array that only broadcasts against the (M, N) spectrum: a row, a column, a 1-D array of length N, a (1, 1) array
+        ny, nx = shape
+        bs = {'row': (1, nx), 'col': (ny, 1), '1d': (nx,), '1x1': (1, 1)}[spec['form']]
+        r = U.rng_of(seed, 400 + spec['salt'])
+        v = r.uniform(-1, 1, bs) + (1j * r.uniform(-1, 1, bs) if spec.get('cplx', False) else 0.0)
+        return U.relayout(v, spec.get('layout', 'C'))
     dt = np.dtype(ARRAY_KINDS[k])
     r = U.rng_of(seed, (200 if dt.kind == 'c' else 100) + spec['salt'])
     if dt.kind == 'c':
@@ -551,14 +735,40 @@ def _tf_array(spec, seed, shape):
     return U.relayout(v, spec.get('layout', 'C'))
 
 
+def _dx_obj(dx, how):
+    if how == 'np':
+        return np.float64(dx)
+    if how == '0d':
+        return np.array(dx)
+    if how == 'int' and float(dx).is_integer():
+        return int(dx)
+    return dx
+
+
+def _shift_obj(shift, how):
+    """a truthy / falsy flag that is not the object True / False"""
+    if how == 'np':
+        return np.True_ if shift else np.False_
+    if how == 'int':
+        return 1 if shift else 0
+    return shift
+
+
 def check_tf(case, ctx):
     """apply_transfer_functions == ifft2(fft2(o) * prod(tfs on the convention's grid)); list == product; all-ones == identity;
     the call is repeatable, leaves every argument alone and does not touch earlier results."""
+    with U.fft_backend(case.get('backend', 'scipy')):
+        _check_tf(case, ctx)
+
+
+def _check_tf(case, ctx):
     from prysm.convolution import apply_transfer_functions as atf
     shape, seed, shift, specs, grids, dx = tuple(case['shape']), case['seed'], case['shift'], case['tfs'], case['grids'], case['dx']
     ny, nx = shape
+    big = ny * nx > 4096
     odt, olay, eo = np.dtype(case.get('odtype', 'float64')), case.get('olayout', 'C'), case.get('oscale', 0)
     container, pre, glay = case.get('container', 'list'), case.get('pre', 'none'), case.get('glayout', 'C')
+    shift_arg = _shift_obj(shift, case.get('shift_as', 'bool'))
     o_in = U.relayout(_to_dtype(_real(seed, shape, case['okind'], 1), odt, eo), olay)
     o = _f64(o_in)
     rt = 2e-4 if odt == np.float32 else 1e-10
@@ -569,11 +779,27 @@ def check_tf(case, ctx):
     FX, FY = np.meshgrid(fx1, fy1)
     FR, FT = np.hypot(FX, FY), np.arctan2(FY, FX)
     has_callable = any(s['kind'] in CALLABLE_KINDS for s in specs)
-    has_complex = any(s['kind'] in ('array_complex', 'array_c64', 'ramp', 'all4') for s in specs)
+    has_scalar = any(s['kind'] in ('scalar', 'const_callable') for s in specs)
+    has_bcast = any(s['kind'] == 'bcast' for s in specs)
+    has_sharp = any(s['kind'] == 'sharp' for s in specs)
     if not has_callable:
         grids = 'library'   # frequency grids are irrelevant for arrays
-    elif container == 'ndarray':
-        container = 'list'  # callables cannot be stacked
+    if container == 'ndarray' and (has_callable or has_scalar or has_bcast):
+        container = 'list'  # callables, constants and broadcastable arrays cannot be stacked
+    # hard-edged callables: the edge is fixed from the harness' grid (see _cutoff); constants are kept inside the representable range
+    exact_ok = grids != 'library' or ((ny == 1 or _pow2(ny * dx)) and (nx == 1 or _pow2(nx * dx)))
+    specs_in, specs = specs, []
+    for s in specs_in:
+        if s['kind'] == 'sharp':
+            c, how = _cutoff(fx1, fy1, FX, FY, FR, s.get('cut', 0), exact_ok)
+            s = dict(s, cutoff=c)
+            if s['fn'] in ('fr_step', 'fr_band', 'fr_guarded_inv'):
+                ctx.label('edge:' + how)
+        elif s['kind'] in ('scalar', 'const_callable'):
+            s = dict(s, value=_tame(s['value'], odt, eo))
+        specs.append(s)
+    has_complex = any(s['kind'] in ('array_complex', 'array_c64', 'ramp', 'all4') or (s['kind'] == 'sharp' and s['fn'] == 'hilbert_x')
+                      or (s['kind'] in ('scalar', 'const_callable') and s['value'][1] != 0) or (s['kind'] == 'bcast' and s.get('cplx', False)) for s in specs)
     vals, tfs = [], []
     stored = []
     same_obj = {}
@@ -586,12 +812,12 @@ def check_tf(case, ctx):
             vals.append(v.copy())
             tfs.append(lambda fr, _v=v: _v)
         elif s['kind'] in CALLABLE_KINDS:
-            vals.append(np.broadcast_to(_tf_value(s, FX, FY, FR, FT), shape))
+            vals.append(np.broadcast_to(_f64(_tf_value(s, FX, FY, FR, FT)), shape))
             # the very same callable object when the same spec is listed again (a list like [blur, blur] applies it twice)
             key = U.canon(s)
             if key not in same_obj:
                 same_obj[key] = _tf_callable(s)
-            if s['kind'] in NEEDS or s['kind'] == 'mix':
+            if s['kind'] in NEEDS or s['kind'] in ('mix', 'sharp', 'const_callable'):
                 names = _declared(s)
                 canonical = names == [n for n in FNAMES if n in names]
                 ctx.label('sig:' + s.get('style', 'plain'), 'declares:%d' % len(names))
@@ -600,9 +826,19 @@ def check_tf(case, ctx):
                     permuted_sig = permuted_sig or not canonical
                 if s['kind'] == 'mix' and len(_mix_uses(s)) < len(names):
                     ctx.label('declares-an-unused-grid')
+                if s['kind'] == 'sharp':
+                    ctx.label('sharp:' + s['fn'])
+                if s['kind'] == 'const_callable':
+                    ctx.label('callable-returns-constant:' + s['as'], 'constant@%d/%d' % (i, len(specs)))
             else:
                 ctx.label('same-callable-object-repeated')
             tfs.append(same_obj[key])
+        elif s['kind'] == 'scalar':
+            v = _scalar_obj(s['value'], s['as'])
+            ctx.label('constant-as:' + s['as'], 'constant:%s' % type(v).__name__, 'constant@%d/%d' % (i, len(specs)),
+                      'constant:' + ('complex' if s['value'][1] != 0 else ('one' if s['value'][0] == 1 else ('zero' if s['value'][0] == 0 else 'real'))))
+            vals.append(np.broadcast_to(np.asarray(_scalar_value(v)), shape))
+            tfs.append(v)
         else:
             # an array listed again is the very same array object when 'share' is drawn (e.g. [mask, mask]), an equal copy otherwise
             key = U.canon(s)
@@ -612,9 +848,11 @@ def check_tf(case, ctx):
             else:
                 v = _tf_array(s, seed, shape)
                 same_obj[key] = v
-            vals.append(_f64(v))
+            if s['kind'] == 'bcast':
+                ctx.label('broadcastable:' + s['form'])
+            vals.append(np.broadcast_to(_f64(v), shape))
             tfs.append(v)
-    keeps = [None if callable(t) else t.copy() for t in tfs]
+    keeps = [None if callable(t) else np.array(t, copy=True) for t in tfs]
     handed = list(tfs)
     if container == 'tuple':
         tfs = tuple(tfs)
@@ -622,10 +860,10 @@ def check_tf(case, ctx):
         tfs = np.array([np.asarray(t) for t in tfs])
         keeps = [tfs.copy()]
         handed = [tfs]
-    T = functools.reduce(lambda p, q: p * q, vals)
+    T = np.array(np.broadcast_to(functools.reduce(lambda p, q: p * q, vals), shape))
     T0 = np.fft.ifftshift(T) if shift else T
     want = np.fft.ifft2(np.fft.fft2(o) * T0).real
-    kw = {'shift': shift}
+    kw = {'shift': shift_arg}
     gkeep = {}
     if grids == 'user1d':
         kw.update(fx=fx1.copy(), fy=fy1.copy())
@@ -634,19 +872,39 @@ def check_tf(case, ctx):
     for g in ('fx', 'fy'):
         if g in kw:
             gkeep[g] = kw[g].copy()
-    dx_arg = dx if grids == 'library' else None
+    dx_arg = _dx_obj(dx, case.get('dx_as', 'py')) if grids == 'library' else None
+    dx_any = _dx_obj(dx, case.get('dx_as', 'py'))
     conv_name = 'shifted' if shift else 'unshifted'
     ctx.nt(has_callable or has_complex or ny % 2 == 1 or nx % 2 == 1 or ny != nx)
     ctx.label('conv:' + conv_name, 'grids:' + grids, 'ntf=%d' % len(specs), 'callable' if has_callable else 'arrays-only',
               'complex' if has_complex else 'real-tf', 'parity:' + _parity(shape), 'odtype:%s' % odt, 'olayout:' + olay, 'container:' + container,
-              'oscale:%s' % ('unit' if eo == 0 else 'extreme'), 'pre:' + pre, 'first:' + ('callable' if callable(handed[0]) else 'array'),
+              'oscale:%s' % ('unit' if eo == 0 else 'extreme'), 'pre:' + pre,
+              'first:' + ('callable' if callable(handed[0]) else ('constant' if np.ndim(handed[0]) == 0 else 'array')),
+              'shift-as:' + case.get('shift_as', 'bool'), 'dx-as:' + case.get('dx_as', 'py'), 'call:' + case.get('call', 'positional'),
+              'fft:' + case.get('backend', 'scipy'), 'samples:' + ('>2**16' if ny * nx > 2 ** 16 else '<=2**16'),
               *sorted(set('tf:' + s['kind'] for s in specs)))
+    if has_scalar:
+        ctx.label('constant-entry:' + conv_name)
+    if has_sharp:
+        ctx.label('grid-sensitive:' + conv_name + ':' + grids)
     scale = float(np.max(np.abs(o)) * np.max(np.abs(T0))) + 1e-300
-    desc = 'shape %s shift=%s grids=%s dx=%r %s object (%s, 1e%d) %s of tfs=%r' % (list(shape), shift, grids, dx, odt, olay, eo, container, specs)
+    desc = 'shape %s shift=%r grids=%s dx=%r %s object (%s, 1e%d) %s of tfs=%r' % (list(shape), shift_arg, grids, dx_any, odt, olay, eo, container, specs)
     bucket = 'apply_tf:%s:%s' % (conv_name, 'user2d-grids' if grids == 'user2d' else ('callable' if has_callable else 'array'))
     if permuted_sig and grids != 'user2d':
         bucket += ':parameters-not-in-canonical-order'
+    if has_sharp:
+        bucket += ':grid-sensitive-callable'
+    if has_scalar:
+        bucket += ':constant-entry'
+    if has_bcast:
+        bucket += ':broadcastable-entry'
     tb = '' if odt.kind == 'f' else ':%s-object' % odt
+
+    def call(obj_, dx_, tfs_, **kws):
+        """the drawn spelling of the call: positional, or every argument by keyword"""
+        if case.get('call', 'positional') == 'keyword':
+            return ctx.call(atf, obj=obj_, dx=dx_, tfs=tfs_, **kws)
+        return ctx.call(atf, obj_, dx_, tfs_, **kws)
     # history inside one process: another valid call first (other convention / spacing / shape / precision)
     if pre == 'failed-call':
         # a callable without a sample spacing or grids, a transfer function of another shape, a callable that raises
@@ -655,13 +913,18 @@ def check_tf(case, ctx):
         _caught(ctx, 'apply_tf:no-dx', atf, _real(seed, shape, 'random', 41), None, [lambda fr: 1 / (1 + fr)], shift=shift)
         _caught(ctx, 'apply_tf:shape', atf, _real(seed, shape, 'random', 41), dx, [np.ones((ny + 1, nx + 2))], shift=shift)
         _caught(ctx, 'apply_tf:callable-raises', atf, _real(seed, shape, 'random', 41), dx, [lambda fr: 1 / (1 + fr), broken], shift=shift)
+    elif pre == 'constants-other-shift':
+        # constants and a grid-sensitive callable under the other convention, before the checked call
+        ctx.call(atf, _real(seed, shape, 'random', 41), dx, [0.5, lambda fr: np.float64(3.0), np.array(2.0), lambda fr: fr != 0], shift=not shift)
     elif pre != 'none':
         psh = (nx + 1, ny + 2) if pre == 'other-shape' else shape
+        if big:
+            psh = (7, 9) if pre == 'other-shape' else shape
         po = _real(seed, psh, 'random', 41).astype(np.float32 if pre == 'float32' else np.float64)
         ctx.call(atf, po, dx * 3 if pre == 'other-dx' else dx, [lambda fx, fy, fr, ft: 1 / (1 + fr + 0 * fx + 0 * fy + 0 * ft)],
                  shift=(not shift) if pre == 'other-shift' else shift)
     okeep = o_in.copy()
-    got_raw = ctx.call(atf, o_in, dx_arg, tfs, **kw)
+    got_raw = call(o_in, dx_arg, tfs, **kw)
     got = np.asarray(got_raw)
     got_keep = np.array(got, copy=True)
     U.check_shape(got, shape, bucket, desc)
@@ -682,22 +945,43 @@ def check_tf(case, ctx):
     args_untouched('after the first call')
     U.check_close(got, want, rt, bucket + ':oracle' + tb, '%s: vs ifft2(fft2(o) * prod T)' % desc, atol=rt * 0.1 * scale)
     # the same call again is the same image (the operator is a function of its arguments)
-    twice = np.asarray(ctx.call(atf, o_in, dx_arg, tfs, **kw))
+    twice = np.asarray(call(o_in, dx_arg, tfs, **kw))
     U.check_close(twice, got_keep, 1e-12, 'apply_tf:%s:not-repeatable' % conv_name, '%s: second identical call differs from the first' % desc, atol=1e-13 * scale)
-    # list == product (metamorphic, same convention)
+    # list == product (metamorphic, same convention); the order of the list does not matter (reversed, rotated by one)
     if len(specs) > 1:
         one = np.asarray(ctx.call(atf, o_in, dx_arg, [T.copy()], shift=shift))
-        U.check_close(got, one, rt, 'apply_tf:%s:list-vs-product' % conv_name, '%s: list of %d vs their product' % (desc, len(specs)), atol=rt * 0.1 * scale)
+        U.check_close(got, one, rt, 'apply_tf:%s:list-vs-product' % conv_name + (':constant-entry' if has_scalar else ''),
+                      '%s: list of %d vs their product' % (desc, len(specs)), atol=rt * 0.1 * scale)
+        if container != 'ndarray' and case.get('reorder', True):
+            seq = list(tfs)
+            for name, perm in (('reversed', seq[::-1]), ('rotated', seq[1:] + seq[:1])):
+                other = np.asarray(call(o_in, dx_arg, tuple(perm) if container == 'tuple' else perm, **kw))
+                U.check_close(other, got, rt, 'apply_tf:%s:order-of-the-list' % conv_name + (':constant-entry' if has_scalar else ''),
+                              '%s: the same entries %s' % (desc, name), atol=rt * 0.1 * scale)
+    # constants: [c] is c times the object, and a constant commutes with the convention (shift=True and shift=False agree)
+    if has_scalar and abs(eo) <= 100:
+        osc_ = float(np.max(np.abs(o)))
+        for i, (s, t) in enumerate(zip(specs, handed)):
+            if s['kind'] not in ('scalar', 'const_callable'):
+                continue
+            cval = _scalar_value(_scalar_obj(s['value'], s['as'])) * (_gain_of(s) if s['kind'] == 'const_callable' else 1.0)
+            for sh in (True, False):
+                alone = np.asarray(ctx.call(atf, o_in, dx_any, [t], shift=sh))
+                U.check_close(alone, (cval * o).real, rt, 'apply_tf:%s:constant-alone' % ('shifted' if sh else 'unshifted'),
+                              'shape %s %s object, tfs=[%r] (entry %d of the list, %s), shift=%s: expected %r times the object' % (
+                                  list(shape), odt, s, i, type(t).__name__, sh, cval), atol=rt * 0.1 * osc_ * abs(cval) + 1e-300)
     # all-ones transfer function is the identity, as an array (of any dtype) and as a callable
     rti = 1e-5 if odt == np.float32 else 1e-12
     osc = float(np.max(np.abs(o)))
-    for name, ones in (('float', np.ones(shape)), ('int', np.ones(shape, np.int64)), ('bool', np.ones(shape, bool))):
-        ident = np.asarray(ctx.call(atf, o_in, dx_arg, [ones], shift=shift))
-        U.check_close(ident, o, rti, 'apply_tf:%s:ones-identity' % conv_name, 'shape %s shift=%s %s object: all-ones %s array' % (list(shape), shift, odt, name), atol=rti * 0.1 * osc)
+    for name, ones in (('float', np.ones(shape)), ('int', np.ones(shape, np.int64)), ('bool', np.ones(shape, bool)), ('constant 1', 1), ('constant 1.0 (0-d)', np.array(1.0)),
+                       ('row of ones', np.ones((1, nx)))):
+        ident = np.asarray(ctx.call(atf, o_in, dx_arg, [ones], shift=shift_arg))
+        U.check_close(ident, o, rti, 'apply_tf:%s:ones-identity' % conv_name, 'shape %s shift=%r %s object: all-ones %s array' % (list(shape), shift_arg, odt, name), atol=rti * 0.1 * osc)
     ones_fn = ((lambda fy, fx: np.ones(np.broadcast_shapes(np.shape(fx), np.shape(fy)))) if seed % 2 else
                (lambda fx, fy: np.ones(np.broadcast_shapes(np.shape(fx), np.shape(fy)))))
-    ident = np.asarray(ctx.call(atf, o_in, dx, [ones_fn], shift=shift))
-    U.check_close(ident, o, rti, 'apply_tf:%s:ones-identity' % conv_name, 'shape %s shift=%s %s object: all-ones callable' % (list(shape), shift, odt), atol=rti * 0.1 * osc)
+    for name, fn in (('array of ones', ones_fn), ('the constant 1.0', lambda fr: 1.0)):
+        ident = np.asarray(ctx.call(atf, o_in, dx_any, [fn], shift=shift_arg))
+        U.check_close(ident, o, rti, 'apply_tf:%s:ones-identity' % conv_name, 'shape %s shift=%r %s object: callable returning %s' % (list(shape), shift_arg, odt, name), atol=rti * 0.1 * osc)
     # the object itself handed over as the (real) transfer function too: one array object in both roles vs an equal copy
     if case.get('selftf', True) and abs(eo) <= 140:
         To = np.fft.ifftshift(o) if shift else o
@@ -713,6 +997,35 @@ def check_tf(case, ctx):
             list(shape), shift, odt, olay, eo), atol=rt * 0.1 * ssc * float(np.max(np.abs(o))))
     args_untouched('at the end')
     U.check_equal(np.asarray(got_raw), got_keep, 'apply_tf:result-overwritten', '%s: the first result changed during later calls' % desc)
+    # ---- the caller edits what it owns between two calls: an array of the list and the object change in place (same array objects);
+    # the next call describes the *current* data
+    if case.get('edit', True) and abs(eo) <= 100:
+        arrs = [tfs[i] for i in range(len(tfs))] if container == 'ndarray' else handed
+        edited = set()
+        for t in arrs:
+            if callable(t) or np.ndim(t) == 0 or id(t) in edited or t is o_in:
+                continue
+            edited.add(id(t))
+            if t.dtype.kind == 'b':
+                t[...] = ~t
+            elif t.dtype.kind == 'u':
+                t[...] = t + 1
+            else:
+                t[...] = t * 2 - (1 if t.dtype.kind == 'i' else 0.25)
+            break
+        if odt.kind == 'f' and ny * nx > 1:
+            o_in[...] = np.roll(o_in, (1, -1), axis=(0, 1)) * 0.5
+        vs = [vals[i] if callable(t) else np.broadcast_to(_f64(t), shape) for i, t in enumerate(arrs)]
+        T2 = np.array(np.broadcast_to(functools.reduce(lambda p, q: p * q, vs), shape))
+        T20 = np.fft.ifftshift(T2) if shift else T2
+        o2 = _f64(o_in)
+        want2 = np.fft.ifft2(np.fft.fft2(o2) * T20).real
+        got2 = np.asarray(call(o_in, dx_arg, tfs, **kw))
+        sc2 = float(np.max(np.abs(o2)) * np.max(np.abs(T20))) + 1e-300
+        ctx.label('edited-in-place:' + ('tf+object' if edited else 'object-only'))
+        U.check_close(got2, want2, rt, 'apply_tf:%s:after-arguments-edited-in-place' % conv_name,
+                      '%s: called again after %s the object had been edited in place' % (desc, 'an array of the list and' if edited else ''), atol=rt * 0.1 * sc2)
+        U.check_equal(np.asarray(got_raw), got_keep, 'apply_tf:result-overwritten', '%s: the first result changed when the arguments were edited in place' % desc)
 
 
 # ---- MTF / PTF / OTF ---------------------------------------------------------------------------------
@@ -768,7 +1081,8 @@ def strat_mtf(tier):
         'dtype': st.sampled_from(MTF_DT), 'layout': U.layouts, 'e64': st.sampled_from(MTF_SCALE64), 'e32': st.sampled_from(MTF_SCALE32),
         'pre': st.sampled_from(['none', 'none', 'other-shape', 'float32', 'bright', 'failed-call']),
         'edit': st.sampled_from(EDITS), 'kind2': st.sampled_from(['random', 'sparse', 'gauss', 'airy', 'impulse']),
-        'off2': st.tuples(st.integers(0, s[0] - 1), st.integers(0, s[1] - 1)).map(list), 'order2': st.integers(0, 5)}))
+        'off2': st.tuples(st.integers(0, s[0] - 1), st.integers(0, s[1] - 1)).map(list), 'order2': st.integers(0, 5),
+        'backend': U.fft_backends, 'dx_as': st.sampled_from(['py', 'py', 'np', '0d', 'int'])}))
 
 
 def _partners(n):
@@ -833,6 +1147,12 @@ def _mtf_props(ctx, m, ph, ot, p64, shape, dx, dt, desc, hist=''):
 def check_mtf(case, ctx):
     """MTF(0)=1, MTF<=1, MTF and OTF point-symmetric / Hermitian about n//2, OTF == MTF exp(i PTF) == explicit DFT / sum(psf);
     for PSFs of every dtype, layout and total energy; the PSF is left alone; results are independent of later calls."""
+    with U.fft_backend(case.get('backend', 'scipy')):
+        ctx.label('fft:' + case.get('backend', 'scipy'), 'dx-as:' + case.get('dx_as', 'py'))
+        _check_mtf(case, ctx)
+
+
+def _check_mtf(case, ctx):
     from prysm import otf
     from prysm._richdata import RichData
     shape, dx = tuple(case['shape']), case['dx']
@@ -866,6 +1186,7 @@ def check_mtf(case, ctx):
         ctx.call(otf.mtf_from_psf, 1e6 * (1 + _real(case['seed'], shape, 'random', 9) ** 2), dx)
 
     def mkarg(arr, dx=dx):
+        dx = _dx_obj(dx, case.get('dx_as', 'py'))      # the spacing as a Python float / int, a numpy scalar or a 0-d array
         if via == 'richdata':
             return (RichData(arr, dx, None),), {}
         if via == 'array-kw':
@@ -961,5 +1282,6 @@ CLAUSES = [
     HypClause('conv_laws', strat_conv, check_conv, examples={'quick': 500, 'thorough': 1500}, shards={'quick': 3, 'thorough': 12}),
     EnumClause('conv_impulse_positions', enum_impulse, check_impulse, shards={'quick': 4, 'thorough': 12}),
     HypClause('transfer_functions', strat_tf, check_tf, examples={'quick': 500, 'thorough': 2500}, shards={'quick': 3, 'thorough': 12}),
+    HypClause('transfer_functions_large', lambda tier: strat_tf(tier, big=True), check_tf, examples={'quick': 8, 'thorough': 40}, shards={'quick': 3, 'thorough': 6}),
     HypClause('mtf_otf_ptf', strat_mtf, check_mtf, examples={'quick': 600, 'thorough': 2500}, shards={'quick': 2, 'thorough': 8}),
 ]
